@@ -767,7 +767,32 @@ func csvCase[T any](c *Case, header bool, newReader func() *FragReader, src **Fr
 		}
 		got = append(got, v)
 	}
+	// the same codec value is used again afterwards (a caller reading the next file with it): a
+	// damaged document must not leave anything behind that changes or blocks the next read
+	var again []*T
+	reread := c.Seed%3 == 0
+	if reread {
+		ch2 := codec.ReadFromReader(newReader())
+		for {
+			consYield()
+			v, ok := <-ch2
+			if !ok {
+				break
+			}
+			again = append(again, v)
+		}
+	}
 	return func() {
+		if reread {
+			same := len(again) == len(got)
+			for i := 0; same && i < len(got); i++ {
+				same = fmt.Sprintf("%+v", *got[i]) == fmt.Sprintf("%+v", *again[i])
+			}
+			if !same {
+				add("second-read-differs", fmt.Sprintf("the same codec value delivered %d records the first time and %d the second time for the same bytes", len(got), len(again)))
+				return
+			}
+		}
 		want := refCsv[T](newReader(), header)
 		if len(got) != len(want) {
 			add("wrong-records", fmt.Sprintf("delivered %d records, the well-formed prefix has %d", len(got), len(want)))
